@@ -22,6 +22,7 @@ VARIABLE l
 SetOf(q) == {q[i] : i \in DOMAIN q}
 RulesOf(c) == SetOf(c.rules)
 AllSafe(c) == \A r \in RulesOf(c) : Safe(r)
+AnyAmbiguous(c) == \E r \in RulesOf(c) : Ambiguous(r)
 Fuel(c) == IF "fuel" \in DOMAIN c THEN c.fuel ELSE 1000
 Expected(c) == StratifiedModelFuel(RulesOf(c), SetOf(c.edb), Fuel(c))
 
@@ -56,6 +57,7 @@ LimitVerdict(c, v) ==
        ELSE "fine"
 
 Verdict(c, v) ==
+  IF AnyAmbiguous(c) THEN "fine" ELSE
   IF HasLimit(c) THEN LimitVerdict(c, v) ELSE
   IF ~AllSafe(c) THEN (IF v.outcome = "ok" THEN "ACCEPTED_UNSAFE" ELSE "fine")
   ELSE IF ~Stratifiable(RulesOf(c)) THEN (IF v.outcome = "ok" THEN "ACCEPTED_UNSTRATIFIABLE" ELSE "fine")
@@ -65,7 +67,7 @@ Verdict(c, v) ==
          [] v.outcome \in {"eval_err", "panic"} -> "EVAL_FAILURE"
          [] OTHER -> "fine"
 
-Class(c) == IF HasLimit(c) THEN (IF ~AllSafe(c) THEN "unsafe" ELSE IF ~Stratifiable(RulesOf(c)) THEN "unstrat"
+Class(c) == IF AnyAmbiguous(c) THEN "ambiguous" ELSE IF HasLimit(c) THEN (IF ~AllSafe(c) THEN "unsafe" ELSE IF ~Stratifiable(RulesOf(c)) THEN "unstrat"
                                  ELSE IF Converged(c) THEN "finite" ELSE "diverging") ELSE
             IF ~AllSafe(c) THEN "unsafe" ELSE IF ~Stratifiable(RulesOf(c)) THEN "unstrat"
             ELSE IF HasErr(RulesOf(c), Expected(c)) THEN "typeerr" ELSE "model"
